@@ -112,7 +112,7 @@ func (w *World) printStats(p int) {
 		return
 	}
 	st := s.Replicator().(interface{ VerifStats() replicator.VerifStats }).VerifStats()
-	w.printf("stats %d added=%d fetching=%d fetched=%d queue=%d buffer=%d inprogress=%d\n", p, st.Added, st.Fetching, st.Fetched, st.Queue, st.Buffer, st.InProgress)
+	w.printf("stats %d added=%d fetching=%d fetched=%d queue=%d buffer=%d inprogress=%d failed=%d free=%d of=%d\n", p, st.Added, st.Fetching, st.Fetched, st.Queue, st.Buffer, st.InProgress, st.Failed, st.FreeSlots, w.slotBase[storeKey(s)])
 }
 
 func (w *World) execGateOp(ctx context.Context, toks []string) (bool, error) {
